@@ -1,6 +1,7 @@
 import Proofs.C15
 import Proofs.TieWrap
 import Proofs.TieSite
+import Proofs.SrcC15
 #print axioms PV.Proofs.C15.declared_wrap_constants
 #print axioms PV.Proofs.C15.wrap_range
 #print axioms PV.Proofs.C15.wrap_congr
@@ -21,3 +22,4 @@ import Proofs.TieSite
 #print axioms PV.Proofs.Tie.site_transform_tie
 #print axioms PV.Proofs.Tie.site_multiplicity_tie
 #print axioms PV.Proofs.Tie.site_positions_tie
+#print axioms PV.Proofs.Source.C15_source_count
